@@ -1,14 +1,34 @@
 import SpecterModel.C01.Drv
 import SpecterModel.C11.Drv
 import SpecterModel.C12.Drv
+import SpecterModel.C13.Drv
+import SpecterModel.C15.Drv
+import SpecterModel.C16.Drv
+import SpecterModel.C21.Drv
+import SpecterModel.C24.Drv
+import SpecterModel.C27.Drv
 import SpecterModel.C28.Drv
+import SpecterModel.C31.Drv
 import SpecterModel.C34.Drv
+import SpecterModel.C35.Drv
+import SpecterModel.C43.Drv
+import SpecterModel.C51.Drv
 
 def main (args : List String) : IO UInt32 := do
   match args with
   | ["C01"] => do Specter.C01.main; return 0
   | ["C11"] => do Specter.C11.main; return 0
   | ["C12"] => do Specter.C12.main; return 0
+  | ["C13"] => do Specter.C13.main; return 0
+  | ["C15"] => do Specter.C15.main; return 0
+  | ["C16"] => do Specter.C16.main; return 0
+  | ["C21"] => do Specter.C21.main; return 0
+  | ["C24"] => do Specter.C24.main; return 0
+  | ["C27"] => do Specter.C27.main; return 0
   | ["C28"] => do Specter.C28.main; return 0
+  | ["C31"] => do Specter.C31.main; return 0
   | ["C34"] => do Specter.C34.main; return 0
+  | ["C35"] => do Specter.C35.main; return 0
+  | ["C43"] => do Specter.C43.main; return 0
+  | ["C51"] => do Specter.C51.main; return 0
   | _ => do IO.eprintln "usage: modeld <property id>"; return 2
